@@ -86,8 +86,8 @@ pub fn p_datagram_roundtrip_16() {
 
 #[kani::proof]
 #[kani::unwind(10)]
-pub fn p_datagram_roundtrip_1200() {
-    datagram_roundtrip::<1200, 1210>();
+pub fn p_datagram_roundtrip_256() {
+    datagram_roundtrip::<256, 266>();
 }
 
 /// Every byte string of length <= 12 offered as a QUIC datagram: `Ok` iff it starts with a
